@@ -57,6 +57,7 @@ var families = []struct{ re, name string }{
 	{`duplicate (field|method)`, "duplicate-member"},
 	{`already declared|redeclared|cannot declare (init|main)|other declaration`, "redeclaration"},
 	{`field and method with the same name`, "field-method-collision"},
+	{`cannot use iota outside constant declaration`, "iota-outside-const"},
 	{`invalid recursive type|invalid cycle|initialization cycle`, "cycle"},
 	{`cannot use _ as value|cannot refer to blank`, "blank-as-value"},
 	{`assignment mismatch|wrong argument count|not enough (arguments|return values)|too many (arguments|return values)`, "count-mismatch"},
@@ -140,14 +141,40 @@ func check0(c Case) (*vk.Verdict, info) {
 	if err != nil {
 		return vk.Bad("output-does-not-parse", "cl reported success but go/parser rejects the output: %v", err), in
 	}
+	gofiles := []*goast.File{f}
+	handwritten := false
+	for name, src := range c.Files { // the hand-written Go files of a mixed package belong to the package
+		if strings.HasSuffix(name, ".go") {
+			gf, err := goparser.ParseFile(fset, name, src, goparser.SkipObjectResolution)
+			if err != nil {
+				return nil, in // not a valid mixed package (a mutation damaged the Go file): outside the statement
+			}
+			gofiles = append(gofiles, gf)
+		}
+	}
 	im, _ := xcl.Importer()
 	var first error
 	conf := types.Config{Importer: im, Error: func(e error) {
-		if first == nil {
-			first = e
+		if first != nil {
+			return
 		}
+		// an error inside a hand-written Go file of the package (a mutation hit that file) says
+		// nothing about the source the compiler wrote
+		if te, ok := e.(types.Error); ok {
+			// (a redeclaration involves two declarations, possibly one of them in the generated file: kept)
+			if name := te.Fset.Position(te.Pos).Filename; strings.HasSuffix(name, ".go") && name != "out.go" && !strings.Contains(te.Msg, "redeclared") && !strings.Contains(te.Msg, "already declared") {
+				if _, mine := c.Files[name]; mine {
+					handwritten = true
+					return
+				}
+			}
+		}
+		first = e
 	}}
-	conf.Check("main", fset, []*goast.File{f}, nil)
+	conf.Check("main", fset, gofiles, nil)
+	if first == nil && handwritten {
+		return nil, in // the package's own Go files do not type-check: not a statement about the output
+	}
 	if first != nil {
 		return vk.Bad(classOf(first.Error()), "cl reported success but go/types rejects the output: %v", first), in
 	}
@@ -171,7 +198,37 @@ func base(t *rapid.T) (map[string]string, string) {
 	case 5:
 		return map[string]string{"bar.xgo": xsugar.InterpProgram(g, 6).XGo()}, "interp"
 	}
+	if rapid.IntRange(0, 3).Draw(t, "mixed") == 0 {
+		return mixedPackage(t), "mixed-go-xgo"
+	}
 	return xsugar.ClassProgram(g).XFiles, "class"
+}
+
+// mixedPackage splits a gosub program over a hand-written Go file and an XGo file: the entry point
+// (func main) and a drawn part of the declarations live in main.go, the rest in bar.xgo.
+func mixedPackage(t *rapid.T) map[string]string {
+	p := gosub.Gen().Draw(t, "gosub")
+	var godecls, xdecls []string
+	for i, d := range p.Decls {
+		// helpers (unit 0) and everything that is not a plain function stays in the XGo file: the Go
+		// file may only use what the XGo file declares, not the other way round for methods
+		if i > 0 && strings.HasPrefix(d, "func ") && !strings.HasPrefix(d, "func (") && !strings.HasPrefix(d, "func init") && rapid.IntRange(0, 3).Draw(t, "togo") == 0 {
+			godecls = append(godecls, d)
+		} else {
+			xdecls = append(xdecls, d)
+		}
+	}
+	mainFn := "func main() {\n\t" + strings.ReplaceAll(strings.Join(p.Main, "\n"), "\n", "\n\t") + "\n}"
+	if rapid.IntRange(0, 2).Draw(t, "mainwhere") == 0 {
+		xdecls = append(xdecls, mainFn)
+	} else {
+		godecls = append(godecls, mainFn)
+	}
+	files := map[string]string{"bar.xgo": (&gosub.Program{Decls: xdecls}).SourceNoMain()}
+	if len(godecls) > 0 {
+		files["main.go"] = (&gosub.Program{Decls: godecls}).SourceNoMain()
+	}
+	return files
 }
 
 type drawn struct {
@@ -261,7 +318,13 @@ func TestPackages(t *testing.T) {
 	for i, c := range accepted {
 		res := xcl.Compile(c.Files, xcl.Options{})
 		if res.Err == nil && res.Go != nil {
-			progs = append(progs, progrun.Prog{Name: fmt.Sprintf("p%04d", i), Files: map[string]string{"main.go": string(res.Go)}})
+			files := map[string]string{"xgo_autogen.go": string(res.Go)}
+			for name, src := range c.Files {
+				if strings.HasSuffix(name, ".go") {
+					files[name] = src
+				}
+			}
+			progs = append(progs, progrun.Prog{Name: fmt.Sprintf("p%04d", i), Files: files})
 		}
 	}
 	for start := 0; start < len(progs); start += 150 {
